@@ -11,7 +11,13 @@ use serde_json::{json, Value};
 use std::collections::{BTreeMap, BTreeSet};
 use std::sync::atomic::{AtomicU64, Ordering};
 
-pub const FRESH: &str = "zz9";
+/// New names of the rename requests: unused in every generated program; most of them start
+/// with a keyword (a name like `iffy` or `offset` is an ordinary identifier).
+pub const FRESH_NAMES: &[&str] = &["zz9", "iffy", "offset", "variable", "typeA", "refx", "procx", "elsewhere", "whiley", "arrayx", "_0", "Z0", "intx"];
+
+pub fn fresh(tok: usize) -> &'static str {
+    FRESH_NAMES[tok % FRESH_NAMES.len()]
+}
 
 #[derive(Clone, Debug, PartialEq, Eq, PartialOrd, Ord)]
 enum Binding {
@@ -122,7 +128,11 @@ pub fn eval_doc(doc: &Doc) -> (Vec<Failure>, u64) {
         reqs.push((
             o,
             s.pos_request("textDocument/references", URI, l, c),
-            s.pos_request("textDocument/rename", URI, ll, lc),
+            {
+                let mut params = json!({"textDocument": {"uri": URI}, "position": {"line": ll, "character": lc}});
+                params["newName"] = json!(fresh(o.tok));
+                s.request("textDocument/rename", params)
+            },
             s.pos_request("textDocument/prepareRename", URI, l, c),
             s.pos_request("textDocument/prepareRename", URI, ll, lc),
         ));
@@ -183,7 +193,7 @@ pub fn eval_doc(doc: &Doc) -> (Vec<Failure>, u64) {
             }
         } else {
             let got_edits: BTreeSet<(u64, u64, u64, u64)> = edits.iter().flatten().map(|e| range_key(&e["range"])).collect();
-            let all_named = edits.iter().flatten().all(|e| e["newText"] == json!(FRESH));
+            let all_named = edits.iter().flatten().all(|e| e["newText"] == json!(fresh(o.tok)));
             let n_edits = edits.as_ref().map(|e| e.len()).unwrap_or(0);
             let other_uris = ren.as_ref().and_then(|r| r.get("changes")).and_then(|c| c.as_object()).map(|m| m.len() > 1).unwrap_or(false);
             if (got_edits != want_edits || !all_named || n_edits != want_edits.len() || other_uris) && fails.len() < 40 {
@@ -193,7 +203,7 @@ pub fn eval_doc(doc: &Doc) -> (Vec<Failure>, u64) {
                 shapes.dedup();
                 fails.push(Failure {
                     key: format!("rename:{}:{}", kind, if shapes.is_empty() { "spurious-or-duplicate".to_string() } else { format!("missing-{}", shapes.join("+")) }),
-                    case: doc.case(json!({"method": "textDocument/rename", "token": o.tok, "name": o.name, "position": doc.tok_positions(o.tok).last(),
+                    case: doc.case(json!({"method": "textDocument/rename", "token": o.tok, "name": o.name, "new_name": fresh(o.tok), "position": doc.tok_positions(o.tok).last(),
                         "expected_ranges": want_edits.iter().collect::<Vec<_>>()})),
                     detail: format!("cursor on #{} {:?}: edits {:?}, expected {:?}", o.tok, o.name, got_edits, want_edits),
                 });
@@ -228,7 +238,7 @@ pub fn eval_doc(doc: &Doc) -> (Vec<Failure>, u64) {
         // position of the renamed cursor occurrence in the new text: edits before it shift it
         let members = &sets[&b];
         let old_len = doc.pr.toks[tok].text.len() as isize;
-        let delta = FRESH.len() as isize - old_len;
+        let delta = fresh(tok).len() as isize - old_len;
         let new_start = |t: usize| -> usize {
             let before = members.iter().filter(|m| **m < t).count() as isize;
             (doc.r.tok_ranges[t].0 as isize + before * delta) as usize
@@ -259,7 +269,7 @@ pub fn eval_doc(doc: &Doc) -> (Vec<Failure>, u64) {
             .map(|t| {
                 let s = new_start(*t);
                 let (l1, c1) = lsptext::position(&new_text, s);
-                let (l2, c2) = lsptext::position(&new_text, s + FRESH.len());
+                let (l2, c2) = lsptext::position(&new_text, s + fresh(tok).len());
                 (l1 as u64, c1 as u64, l2 as u64, c2 as u64)
             })
             .collect();
@@ -338,7 +348,14 @@ pub fn replay(case: &Value) -> Vec<Failure> {
     let mut s = Session::new(true);
     s.open(URI, text);
     let id = if let Some(p) = rq["position"].as_array() {
-        Some(s.pos_request(method, URI, p[0].as_u64().unwrap_or(0) as u32, p[1].as_u64().unwrap_or(0) as u32))
+        let (l, c) = (p[0].as_u64().unwrap_or(0) as u32, p[1].as_u64().unwrap_or(0) as u32);
+        if let (Some(n), "textDocument/rename") = (rq["new_name"].as_str(), method) {
+            let mut params = json!({"textDocument": {"uri": URI}, "position": {"line": l, "character": c}});
+            params["newName"] = json!(n);
+            Some(s.request(method, params))
+        } else {
+            Some(s.pos_request(method, URI, l, c))
+        }
     } else {
         None
     };
